@@ -4,6 +4,6 @@
 From Coq Require Extraction ExtrOcamlBasic.
 From Verif Require Import Base.Str Gen.GenSerial Model.Serial.
 Extraction Language OCaml.
-Extraction "Extract/model.ml"
+Extraction "Extract/m_serial.ml"
   Str.is_ws Str.lines Str.trim_end Str.print_N Str.parse_u32
   Serial.serialize Serial.deserialize Serial.wf_log Serial.normalize Serial.path_ok.
